@@ -16,13 +16,17 @@ import (
 	"github.com/containerd/stargz-snapshotter/estargz/internal/verifutil"
 )
 
-// SigFinding is the signature of the candidate finding (see the C03 report): with MinChunkSize > 0 a
-// second AppendTar call records Offsets that are not member boundaries.
-const SigFinding = "writer-minchunk-second-appendtar"
+// SigSecondAppend: with MinChunkSize > 0 a second AppendTar call recorded Offsets that are not member
+// boundaries (repaired in /repo by 6f1f089; a regression is a violation with this signature).
+const SigSecondAppend = "writer-minchunk-second-appendtar"
 
-// SigVerifyShared: Reader.VerifyTOC refuses every TOC in which two data entries share an Offset, which
-// is what MinChunkSize > 0 produces by design (innerOffset).
+// SigVerifyShared: Reader.VerifyTOC refused every TOC in which two reg / chunk entries share an Offset,
+// which is what MinChunkSize > 0 produces by design (repaired in /repo by caf62f4).
 const SigVerifyShared = "verifytoc-rejects-shared-offset"
+
+// SigUnpackEmpty: Unpack of a blob without any data member returns EOF (known finding; raised only in
+// the separate findings pass).
+const SigUnpackEmpty = "unpack-empty-layer"
 
 // Opts are the options handed to the code under test.
 type Opts struct {
@@ -77,16 +81,9 @@ type Recorder struct {
 	cur     *Stream // the open stream (single-writer runs)
 }
 
-// Mark is called right before an AppendTar call: appendTar reads w.cw.n there, possibly in the middle
-// of an open stream; what the compressor pushed on its own since the last event is an oracle value.
-func (r *Recorder) Mark() {
-	r.mu.Lock()
-	defer r.mu.Unlock()
-	if r.cur != nil {
-		r.F = append(r.F, r.cur.n)
-		r.cur.n = 0
-	}
-}
+// Mark is called right before an AppendTar call.  Since 6f1f089 appendTar closes the open stream
+// first (a Close event), so there is nothing to record here any more.
+func (r *Recorder) Mark() {}
 
 func NewRecorder() *Recorder { return &Recorder{writers: map[io.Writer]struct{}{}} }
 
@@ -230,9 +227,9 @@ func RunCase(out *verifutil.Out, t *Target, c *Case, maxCheck int, findings bool
 		c.Label, t.Fmt, c.Mode, c.Chunk, c.MinChunk, c.Level, c.Workers, len(c.Prio), c.InComp, len(c.Calls)))
 	rn := &runner{out: out, t: t, c: c, findings: findings}
 	rn.fail = func(sig, what string) {
-		if c.Finding && (sig == "offset-not-member-boundary" || sig == "chunk-bytes-mismatch" || sig == "chunk-out-of-member" ||
-			sig == "open-failed" || sig == "open-read-mismatch" || sig == "chunk-digest-mismatch" || sig == "verifytoc-failed") {
-			sig = SigFinding
+		if len(c.Calls) > 1 && c.MinChunk > 0 && (sig == "offset-not-member-boundary" || sig == "chunk-bytes-mismatch" ||
+			sig == "chunk-out-of-member") {
+			sig = SigSecondAppend // the shape of the defect repaired by 6f1f089
 		}
 		out.Fail(sig, fmt.Sprintf("%s [%s fmt=%s mode=%s chunk=%d min=%d workers=%d]: %s", c.Label, sig, t.Fmt, c.Mode, c.Chunk, c.MinChunk, c.Workers, what))
 	}
@@ -422,9 +419,9 @@ func (rn *runner) run(maxCheck int) {
 	if un, err := t.Unpack(blob, res.ExtTOC); err != nil {
 		if p.NData == 0 {
 			// candidate finding: a blob without any data member (Writer, nothing appended) cannot be unpacked
-			out.Count("candidate-unpack-empty-layer")
+			out.Count("known-" + SigUnpackEmpty)
 			if rn.findings {
-				rn.fail("unpack-empty-layer", err.Error())
+				rn.fail(SigUnpackEmpty, err.Error())
 			}
 		} else {
 			rn.fail("unpack-failed", err.Error())
@@ -468,10 +465,7 @@ func (rn *runner) run(maxCheck int) {
 			}
 		}
 		if shared && c.MinChunk > 0 {
-			out.Count("candidate-" + SigVerifyShared)
-			if rn.findings {
-				rn.fail(SigVerifyShared, "VerifyTOC: "+verr.Error())
-			}
+			rn.fail(SigVerifyShared, "VerifyTOC: "+verr.Error())
 		} else {
 			rn.fail("verifytoc-failed", verr.Error())
 		}
@@ -847,8 +841,7 @@ func (rn *runner) checkTOC(p *Parsed, items []TarItem) {
 }
 
 // RunAll: the hand-written scenarios, then n generated cases.  VERIF_C03_STREAM=findings selects the
-// separate stream of the candidate findings (MinChunkSize > 0 with a second AppendTar call; VerifyTOC
-// on blobs whose entries share an Offset; Unpack of a blob without data members).
+// separate pass of the known finding (Unpack of a blob without data members): scenarios only.
 func RunAll(out *verifutil.Out, t *Target, n, maxCheck int) {
 	findings := os.Getenv("VERIF_C03_STREAM") == "findings"
 	r := verifutil.NewRand(verifutil.Seed()*7919 + uint64(t.Fmt[0]))
@@ -862,7 +855,7 @@ func RunAll(out *verifutil.Out, t *Target, n, maxCheck int) {
 		}
 		RunCase(out, t, &c, maxCheck, findings)
 	}
-	for i := 0; i < n; i++ {
+	for i := 0; i < n && !findings; i++ {
 		c := Generate(r, t, i, findings)
 		RunCase(out, t, &c, maxCheck, findings)
 	}
